@@ -41,9 +41,7 @@ TEXT = {
  "C11": ("proof", "Theorems (Props/C11.v): the closure log of a pass has no duplicates, is exactly the reachable nodes with a closure, respects consumer-before-"
          "operand order (no algebra needed), and each closure receives the accumulation of all its consumers' contributions; consumer counts equal the "
          "tracked in-degree. Correspondence: all small DAGs of user closures, self-product chains of depth 40-60 (a blow-up shows as a timeout), mixed graphs.", "6 C11"),
- "C12": ("proof", "Theorems (Props/C12.v, model level): Clone pushes exactly the same (node, flags) handle; gradient reads/clears depend only on the node; an operation "
-         "depends on its operand slots only through the handles they hold; Drop only empties its slot. The substantive content - that Rust's Clone shares "
-         "every cell - is established by the correspondence: every random program against three variants with clones/drops/re-binding, corgi vs corgi bitwise.", "6 C12"),
+ "C12": ("proof", "Theorems (Props/C12programs.v, C12.v; model level): for whole programs, a variant obtained by replacing operands by clones, starting the pass from a clone of the result, reading gradients through clones, and dropping handles the program no longer names (re-binding) produces the same observations at every matched instruction (C12_variant_observations, by simulation over every instruction except Vec::from, which legitimately depends on the number of owners); single-step lemmas: Clone pushes the same (node, flags) handle, gradient reads/clears depend only on the node, Drop only empties its slot. That Rust's Clone shares every cell and copies both flags is what the correspondence establishes: random programs (half of them with handles whose tracking and keep flags were driven apart) against three variants each, corgi vs corgi bitwise, plus the white-box probe.", "6 C12"),
  "C13": ("proof", "Theorems (Props/C13.v, any scalar type): gd_update on any parameter list, shapes and frozen subset re-binds each unfrozen parameter to a fresh "
          "tracked node with values x - lr*g of its own gradient and no gradient, leaves frozen ones and all other nodes untouched; closed form; refuted "
          "without the gradient-length hypothesis (why C03 matters). Correspondence: 1-5 parameters, all gradient subsets, repeated updates; also checked "
@@ -52,15 +50,10 @@ TEXT = {
  "C15": ("proof", "Theorems (Props/C15.v): the dense layer value (x W^T + b, batched or single vector) and conv layer value, model_forward as the fold of the layers, "
          "the mse and cross-entropy element formulas and model_backward = sum of the cost array, from C04-C07. Correspondence: random models; forward values "
          "and loss also compared with a pure-Python evaluation of the documented formulas on the parameters corgi reports.", "6 C15"),
- "C16": ("proof", "Theorems (Props/C16.v, any scalar type): constructors succeed exactly on valid input with exactly the given dims and row-major values, nested "
-         "construction stacks equal shapes, full in-range multi-index = row-major element, flat index, equality reads dims and values only. "
-         "Correspondence: exhaustive shapes rank<=4 dims<=3, all indices, refusal stream, arr! literals.", "6 C16"),
+ "C16": ("proof", 'Theorems (Props/C16.v, C16nested.v, any scalar type): constructors succeed exactly on valid input with exactly the given dims and row-major values; nested construction of ANY depth (rose trees) builds exactly the nested dimensions iff the nesting is regular, and indexing follows the path; full in-range multi-index = row-major element, flat index, equality reads dims and values only. Correspondence: exhaustive shapes rank<=4 dims<=3 plus ranks 5-6, all indices, refusal stream, arr! literals, equality between clones and reshaped views sharing one buffer.', "6 C16"),
  "C17": ("proof", "Theorems (Props/C17.v abstract; Props/C17concrete.v): every built-in derivative closure, flatten_to and the accumulation commute with alpha*x+beta*y (BDiv under the named law that scalar division is linear in the numerator), hence the adjoint table and every leaf gradient of the real engine are linear in the seed; backward(None) is definitionally backward(ones). Correspondence: five fresh instances per random program (s1, s2, combination, none, ones); the relation is evaluated on corgi's gradients alone.", "6 C17"),
- "C18": ("proof", "Theorems (Props/C18.v, reachability model of Rc): holders form a DAG; the ownership count ignores gradient/delta/count cells (stored gradients never "
-         "keep a graph alive) and is unchanged by passes; a leaf that is the only root (whatever was built and dropped before) is sole owner; fresh buffers never "
-         "alias except through reshape. PARTIAL BY NATURE: what Rc and the allocator actually free is not in the model. Correspondence: random graphs, passes, "
-         "fetched gradients, all derived handles dropped, Vec::from on every leaf (must succeed); model loop: previous input released after the next forward.", "6 C18"),
- "C19": ("proof", 'Theorems (Props/C19.v): for ANY two scalar instances every forward operation, every derivative closure, the engine and every instruction of every program give the same dimensions, panic on exactly the same inputs and produce the same tracking flags and observation structure (run_rel, run_cast) - shapes, tracking and acceptance never depend on the float width. NOT PROVED (out of reach here): agreement of values to within single-precision rounding; that half is VALIDATED (a test, not a proof) by re-running samples of the C01-C07 programs against the --features f32 build with a scaled tolerance.', "6 C19"),
+ "C18": ("proof", "Theorems (Props/C18.v, C18loop.v; reachability model of Rc): holders form a DAG; the ownership count ignores gradient/delta/count cells (stored gradients never keep a graph alive) and is unchanged by passes; a leaf that is the only root is sole owner; fresh buffers never alias except through reshape; in the training loop the target is released as soon as backward returns and the batch after the next forward, at every iteration, for any layer stack (C18_every_batch_released). PARTIAL BY NATURE: what Rc and the allocator actually free is not in the model; the model's count is compared with Rc::strong_count through the white-box probe on every history. Correspondence: random graphs, passes, fetched gradients, all derived handles dropped, Vec::from on every leaf (must succeed); model loop: previous input released after the next forward.", "6 C18"),
+ "C19": ("proof", "Theorems (Props/C19.v): for ANY two scalar instances every forward operation, every derivative closure, the engine and every instruction of every program give the same dimensions, panic on exactly the same inputs and produce the same tracking flags and observation structure (run_rel, run_cast) - shapes, tracking and acceptance never depend on the float width.  Props/C19rounding.v (Flocq; axioms: Coq's Reals axioms + classic): for the model instantiated with round-to-nearest binary32 / binary64 arithmetic, the classical forward error bounds hold in corgi's own summation order - one rounding per element-wise operation, gamma_(n-1)*sum|terms| for sum(k), gamma_(n+1)*(|c|+sum|a_k b_k|)+underflow for every matmul and convolution element - and binary32 and binary64 results on the same data differ by at most the sum of the two bounds (C19_matmul_f32_vs_f64): 'within single-precision rounding of the terms involved'. NOT PROVED: error bounds for compositions (softmax, whole forward passes, gradients), overflow/NaN behaviour, the real libm; these are VALIDATED (a test) by re-running samples of the C01-C07 programs against the --features f32 build with a scaled tolerance.", "6 C19"),
 }
 
 PENDING = "the Coq theorem file for this property is not yet registered in this commit (model and generator exist); it will be claimed in a later commit"
